@@ -128,6 +128,21 @@ theorem decimal_strictWeak :
     show compareGreaterByteArrayDecimals a.1 b.1 = _
     exact decimal_compare_correct a.1 b.1 a.2.2 b.2.2 a.2.1 b.2.1)
 
+/-- **Decimal (and Float16) statistics are never byte-truncated**, whatever the physical type:
+`can_truncate_value` is false for them, so `statistics_truncate_length` /
+`column_index_truncate_length` do not apply and the bounds above are what is written. -/
+theorem decimal_never_truncated (physical : Nat) (isFloat16 : Bool) :
+    canTruncateValue physical true isFloat16 = false ∧ canTruncateValue 2 false true = false := by
+  unfold canTruncateValue
+  refine ⟨?_, by decide⟩
+  split
+  · simp
+  · split <;> simp
+
+/-- plain binary / string columns are truncatable -/
+example : canTruncateValue 1 false false = true ∧ canTruncateValue 2 false false = true ∧
+    canTruncateValue 0 false false = false := by decide
+
 /-- plain BYTE_ARRAY / FIXED_LEN_BYTE_ARRAY (UNSIGNED order): `a > b` on slices -/
 theorem bytes_strictWeak : StrictWeak sliceGt := by
   constructor
@@ -234,6 +249,32 @@ theorem page_stats_bound {α : Type} {gt : α → α → Bool} {nan : α → Boo
 /-- non-vacuity: f32 values `[NaN, 1.0, -0.0, +0.0, NaN]` in two mini-batches: min = -0.0, max = 1.0 -/
 example : chunkStats (compareGreaterTotal 32) isNanF32 [[[0x7FC00000, 0x3F800000], [0x80000000, 0x00000000, 0xFFC00000]]]
     = ⟨some 0x80000000, some 0x3F800000⟩ := by decide
+
+/-- **Decimal columns (BYTE_ARRAY of mixed lengths or FIXED_LEN_BYTE_ARRAY): chunk min/max
+bound every written value as an integer and are written values** — for every layout into
+pages and mini-batches.  (`chunk_stats_bound` with `decimal_strictWeak`; since decimal
+statistics are never truncated, `decimal_never_truncated`, these are the emitted bounds.) -/
+theorem decimal_chunk_stats_bound (pages : List (List (List {bs : List Nat // bs ≠ [] ∧ Bytes bs}))) :
+    let vs := (pages.map List.flatten).flatten
+    let r := chunkStats (fun a b => compareGreaterByteArrayDecimals a.1 b.1) (fun _ => false) pages
+    ∀ v ∈ vs, ∃ mn mx, r.min = some mn ∧ r.max = some mx ∧ mn ∈ vs ∧ mx ∈ vs ∧
+      decimalValue mn.1 ≤ decimalValue v.1 ∧ decimalValue v.1 ≤ decimalValue mx.1 := by
+  intro vs r v hv
+  have h := chunk_stats_bound (nan := fun _ => false) decimal_strictWeak pages
+  obtain ⟨_, h2, h3⟩ := h
+  obtain ⟨mn, mx, e1, e2, _, _, g1, g2⟩ := h3 v hv rfl
+  obtain ⟨mn', mx', e1', e2', m1, m2⟩ := h2 (List.ne_nil_of_mem hv)
+  have : mn' = mn := by rw [e1] at e1'; exact (Option.some.inj e1').symm
+  subst this
+  have : mx' = mx := by rw [e2] at e2'; exact (Option.some.inj e2').symm
+  subst this
+  have c1 := decimal_compare_correct mn'.1 v.1 mn'.2.2 v.2.2 mn'.2.1 v.2.1
+  have c2 := decimal_compare_correct v.1 mx'.1 v.2.2 mx'.2.2 v.2.1 mx'.2.1
+  rw [g1] at c1
+  rw [g2] at c2
+  have d1 : ¬ decimalValue mn'.1 > decimalValue v.1 := by simpa using c1.symm
+  have d2 : ¬ decimalValue v.1 > decimalValue mx'.1 := by simpa using c2.symm
+  exact ⟨mn', mx', e1, e2, m1, m2, by omega, by omega⟩
 
 /-! ## (c) truncation -/
 
@@ -594,6 +635,10 @@ theorem source_shape_ties :
      SHAPE_TRUNC_MAX_BIN_lost ||
      SHAPE_TRUNC_EXACT_lost ||
      SHAPE_CAN_TRUNCATE_lost ||
+     SHAPE_NO_TRUNCATE_FLBA_lost ||
+     SHAPE_NO_TRUNCATE_DECIMAL_lost ||
+     SHAPE_TRUNC_STATS_BA_GUARD_lost ||
+     SHAPE_TRUNC_STATS_FLBA_GUARD_lost ||
      SHAPE_TRUNCATE_UTF8_lost ||
      SHAPE_TRUNC_INC_UTF8_lost ||
      SHAPE_INC_UTF8_lost ||
